@@ -156,4 +156,76 @@ func registerResolver() {
 		Assume:   common,
 		Anchored: append(resolverFns, "(*github.com/hashicorp/go-argmapper.ErrArgumentUnsatisfied).Error"),
 	})
+
+	w10 := func(fam, nV, conv, form, sv int64) Shard {
+		return sh("HarnessC10", fmt.Sprintf("%s: target type symbolic, %d supplied values, converters=%d, forms=%s, order policy %d", famNames[fam], nV, conv, formNames[form], sv), 0, fam, nV, conv, form, sv)
+	}
+	register(&PropSpec{
+		ID: "C10", Pkg: "argmapper",
+		Quick:    []Shard{w10(0, 1, 0, 0, 0), w10(0, 1, 11, 9, 0), w10(4, 2, 11, 1, 0), w10(0, 1, 1111, 1, 0), w10(3, 2, 11, 0, 1)},
+		Thorough: []Shard{w10(0, 1, 0, 0, 0), w10(0, 1, 11, 9, 0), w10(4, 2, 11, 1, 0), w10(0, 1, 1111, 1, 0), w10(3, 2, 11, 0, 1), w10(0, 2, 1111, 1, 0), w10(0, 1, 2111, 1, 0), w10(4, 1, 1111, 9, 0)},
+		Covers:   []string{"C10.both-returned", "C10.failure-checked", "C10.success-checked", "C10.conversion-used"},
+		Bounds:   []string{"target type symbolic over the family's pool (concrete and interface), <=2 supplied values, <=2 converters with symbolic labels; Convert and the identity call run in the same path on the same options"},
+		Outside:  []string{"as C01", "targets with names or subtypes (Convert takes a plain type)"},
+		Assume:   common,
+		Anchored: []string{"github.com/hashicorp/go-argmapper.Convert", "github.com/hashicorp/go-argmapper.convertMulti", "github.com/hashicorp/go-argmapper.convertFunc"},
+		CVQuick:  2, CVThor: 4,
+	})
+	c14 := func(inF, outF, k, errPos int64) Shard {
+		fn := []string{"positional", "struct", "*struct", "**struct", "struct mixed with another parameter", "empty"}
+		return sh("HarnessC14", fmt.Sprintf("inputs %s, results %s, %d entries each, error position %d (0 none,1 final,2 first)", fn[inF], fn[outF], k, errPos), 0, inF, outF, k, errPos)
+	}
+	c14s := func(kind int64) Shard { return sh("HarnessC14Static", fmt.Sprintf("static catalogue entry %d", kind), 0, kind) }
+	register(&PropSpec{
+		ID: "C14", Pkg: "argmapper",
+		Quick: []Shard{c14(1, 5, 2, 0), c14(2, 0, 1, 1), c14(0, 1, 2, 1), c14(5, 2, 2, 0), c14(0, 0, 2, 2), c14(3, 5, 1, 0), c14(4, 5, 1, 0), c14(5, 3, 1, 1), c14(5, 4, 1, 0),
+			c14s(0), c14s(1), c14s(2), c14s(3), c14s(4)},
+		Thorough: []Shard{c14(1, 5, 3, 0), c14(2, 0, 2, 1), c14(0, 1, 3, 1), c14(5, 2, 3, 0), c14(0, 0, 3, 2), c14(3, 5, 1, 0), c14(4, 5, 1, 0), c14(5, 3, 1, 1), c14(5, 4, 1, 0), c14(1, 2, 2, 1), c14(2, 1, 2, 0),
+			c14s(0), c14s(1), c14s(2), c14s(3), c14s(4)},
+		Covers:   []string{"C14.sets-checked", "C14.rejection-checked", "C14.pointer-struct-form", "C14.static-checked"},
+		Bounds:   []string{"field lists of <=2 (quick) / 3 (thorough) fields; per field the tag is drawn symbolically from the grammar [name in {none,x,Yy,ZED}][,typeOnly][,subtype=s][,unknown option] or empty tag, type in {P0,P1,I}; forms positional/struct/*struct/**struct/mixed/empty for inputs and results; error absent/final/first", "a static catalogue of real Go signatures (unexported fields, marker not in first position, plain structs, non-function values)"},
+		Outside:  []string{"more than 3 fields", "lists that repeat a name, a type-only type or a (type,subtype) pair (well-formedness)", "tags outside the grammar"},
+		Assume:   []string{"reflect.StructOf/FuncOf/MakeFunc are modelled over go/types"},
+		Anchored: []string{"github.com/hashicorp/go-argmapper.newValueSetFromStruct", "github.com/hashicorp/go-argmapper.newValueSet", "github.com/hashicorp/go-argmapper.NewFunc", "github.com/hashicorp/go-argmapper.isStruct"},
+		CVQuick:  2, CVThor: 4,
+	})
+	c15b := func(nIn, nOut, calls, cons int64) Shard {
+		return sh("HarnessC15Built", fmt.Sprintf("built function with %d inputs, %d outputs (symbolic labels, F-full), %d consecutive calls, downstream consumer=%d, symbolic failure", nIn, nOut, calls, cons), 0, nIn, nOut, calls, cons)
+	}
+	register(&PropSpec{
+		ID: "C15", Pkg: "argmapper",
+		Quick:    []Shard{sh("HarnessC15Set", "value lists of 1 value", 0, 1), sh("HarnessC15Set", "value lists of 2 values", 0, 2), sh("HarnessC15Set", "empty value list", 0, 0), c15b(1, 1, 2, 1), c15b(2, 1, 1, 0), c15b(1, 2, 1, 1), c15b(0, 1, 1, 1)},
+		Thorough: []Shard{sh("HarnessC15Set", "value lists of 1 value", 0, 1), sh("HarnessC15Set", "value lists of 2 values", 0, 2), sh("HarnessC15Set", "value lists of 3 values", 0, 3), sh("HarnessC15Set", "empty value list", 0, 0), c15b(1, 1, 3, 1), c15b(2, 1, 2, 1), c15b(1, 2, 2, 1), c15b(2, 2, 1, 1), c15b(0, 1, 1, 1), c15b(1, 0, 2, 0)},
+		Covers:   []string{"C15.set-checked", "C15.built-call-checked", "C15.built-error-path", "C15.consumer-checked"},
+		Bounds:   []string{"value lists of <=2 (quick) / 3 (thorough) values with symbolic name in {'',a,Bb}, type in {P0,P1,P2}, subtype in {'',s}; payloads symbolic", "built functions with <=2 inputs and <=2 outputs, symbolic labels, symbolic failure, 1-3 consecutive calls, optional downstream consumer; compared with an ordinary (struct-form) twin"},
+		Outside:  []string{"value lists that repeat a name or a type-only type", "more than 3 values"},
+		Assume:   common,
+		Anchored: []string{"github.com/hashicorp/go-argmapper.NewValueSet", "(*github.com/hashicorp/go-argmapper.ValueSet).FromSignature", "(*github.com/hashicorp/go-argmapper.ValueSet).SignatureValues", "github.com/hashicorp/go-argmapper.BuildFunc"},
+		CVQuick:  2, CVThor: 4,
+	})
+	register(&PropSpec{
+		ID: "C16", Pkg: "argmapper",
+		Quick:    []Shard{sh("HarnessC16", "3 symbolic options, no nil option", 0, 3, 0), sh("HarnessC16", "2 symbolic options incl. nil option", 0, 2, 1), sh("HarnessC16Perm", "permutations of 3 exact options", 0, 3, 0), sh("HarnessC16Perm", "permutations of 3 exact options + distractor converter", 0, 3, 1)},
+		Thorough: []Shard{sh("HarnessC16", "4 symbolic options, no nil option", 0, 4, 0), sh("HarnessC16", "3 symbolic options incl. nil option", 0, 3, 1), sh("HarnessC16Perm", "permutations of 4 exact options", 0, 4, 0), sh("HarnessC16Perm", "permutations of 4 exact options + distractor converter", 0, 4, 1)},
+		Covers:   []string{"C16.call-returned", "C16.values-checked", "C16.default-applies", "C16.call-overrides-or-supplies", "C16.nil-option-checked", "C16.permutation-checked"},
+		Bounds:   []string{"option lists of <=3 (quick) / 4 (thorough) options, each symbolically Named(spelling from {ab,AB,aB,Ab,cd,CD}, value) / Typed(value) / nil value / nil option; the split into construction defaults and call options symbolic; field-name spelling symbolic", "all permutations of 3/4 exactly matching options, with and without a distractor converter"},
+		Outside:  []string{"longer option lists", "non-ASCII names"},
+		Assume:   common,
+		Anchored: []string{"github.com/hashicorp/go-argmapper.Named", "github.com/hashicorp/go-argmapper.Typed", "github.com/hashicorp/go-argmapper.newArgBuilder", "(*github.com/hashicorp/go-argmapper.Func).argBuilder"},
+		CVQuick:  2, CVThor: 4,
+	})
+	c17 := func(k, final, form int64) Shard {
+		return sh("HarnessC17", fmt.Sprintf("%d results + final slot %d (0 none, 1 error, 2 concrete error type), form %d (0 positional, 1 marker struct)", k, final, form), 0, k, final, form)
+	}
+	register(&PropSpec{
+		ID: "C17", Pkg: "argmapper",
+		Quick: []Shard{c17(0, 0, 0), c17(0, 1, 0), c17(1, 1, 0), c17(2, 1, 0), c17(2, 0, 0), c17(2, 2, 0), c17(3, 1, 0), c17(2, 1, 1), c17(1, 0, 1), c17(0, 2, 0),
+			sh("HarnessC17Fail", "resolution failure: missing argument", 0, 0), sh("HarnessC17Fail", "resolution failure: nil option", 0, 1), sh("HarnessC17Fail", "resolution failure: converter input missing", 0, 2), sh("HarnessC17Fail", "failing converter", 0, 3)},
+		Covers:   []string{"C17.accessors-checked", "C17.final-error-checked", "C17.non-final-error-checked", "C17.concrete-error-type-is-an-output", "C17.resolution-failure-checked"},
+		Bounds:   []string{"all result arities 0..3 with result kinds drawn symbolically from {P0,P1,error,P2} (distinct), final slot none / error / concrete error type, nil-ness of every error slot symbolic; positional and marker-struct results", "four resolution-failure scenarios"},
+		Outside:  []string{"more than 3 results before the final slot", "result lists repeating a type"},
+		Assume:   common,
+		Anchored: []string{"(*github.com/hashicorp/go-argmapper.Result).Err", "(*github.com/hashicorp/go-argmapper.Result).Len", "(*github.com/hashicorp/go-argmapper.Result).Out", "(*github.com/hashicorp/go-argmapper.Result).hasError", "(*github.com/hashicorp/go-argmapper.Func).callDirect"},
+		CVQuick:  2, CVThor: 4,
+	})
 }
